@@ -11,7 +11,8 @@ N_QUICK = 500
 N_THOROUGH = 5000
 
 def nc_meta(rng, allow_list=True):
-    pool = {'units': 'K', 'long_name': 'temperature', 'scale': 2.5, 'count': 3, 'levels': [1.0, 2.5], 'ids': [3, 1, 2], 'title': 'a b'}
+    pool = {'units': 'K', 'long_name': 'temperature', 'scale': 2.5, 'count': 3, 'levels': [1.0, 2.5], 'ids': [3, 1, 2], 'title': 'a b',
+            '_revision': 3, '_origin': 'model clock'}      # (names with a leading underscore are ordinary metadata too; only _FillValue is reserved)
     ks = rng.sample(sorted(pool), rng.randint(0, 3))
     return {k: pool[k] for k in ks if allow_list or not isinstance(pool[k], list)}
 
